@@ -33,10 +33,11 @@ def ob_segment(ob):
     from props import wf_docs as W
 
     only = ob.params.get('layout')
+    B0, B1 = ((0, 2, 5), (1, 3, 7)) if not ob.params.get('deep') else (tuple(range(len(W.BLOCKS))), tuple(range(len(W.BLOCKS))))
 
     def target(lay: int, ntr: bool, nsec: bool, b0: int, b1: int, multi: bool, colon: bool, sep: int):
         layout = only if only else choose(lay, W.LAYOUTS)
-        doc, exp = W.build(layout, 2 if ntr else 1, 2 if nsec else 1, (choose(b0, (0, 2, 5)), choose(b1, (1, 3, 7))), bool(multi),
+        doc, exp = W.build(layout, 2 if ntr else 1, 2 if nsec else 1, (choose(b0, B0), choose(b1, B1)), bool(multi),
                            bool(colon), choose(sep, range(3)))
         r = _run_modes(doc, ('default', 'segment'))
         return r['default'][0] == exp and r['segment'][0] == exp and r['default'][2] == [] and r['segment'][2] == []
@@ -51,7 +52,7 @@ def ob_segment(ob):
         for v in vs:
             a = v['args']
             doc, exp = W.build(only or W.LAYOUTS[cl(a['lay'], 4)], 2 if a['ntr'] else 1, 2 if a['nsec'] else 1,
-                               ((0, 2, 5)[cl(a['b0'], 3)], (1, 3, 7)[cl(a['b1'], 3)]), bool(a['multi']), bool(a['colon']), cl(a['sep'], 3))
+                               (B0[cl(a['b0'], len(B0))], B1[cl(a['b1'], len(B1))]), bool(a['multi']), bool(a['colon']), cl(a['sep'], 3))
             out.append(violation('segment-changes-result', f'{doc.string!r}: parsing with and without `segment` differs (or differs from the '
                                  f'expected tracts {exp}); {v["exc"]}', 'c20_modes', {'text': doc.string, 'expected': exp, 'what': 'segment'}))
         return out[:3]
@@ -212,7 +213,7 @@ def obligations(tier):
          'rebuild_sec_within', 'PLSSParser.check_sec_within_tracts', 'deduce_layout', 'cleanup_desc']
     from props.wf_docs import LAYOUTS
     return [Ob(f'segment_equivalence_{lay}', 'S', ob_segment, f'segment on/off give the expected tracts on {lay} documents', functions=G,
-               weight=8, timeout=3000, params={'cap': 2700, 'layout': lay}) for lay in LAYOUTS] + [
+               weight=8, timeout=5000, params={'cap': 4500, 'layout': lay, 'deep': not q}) for lay in LAYOUTS] + [
         Ob('colon_modes', 'S', ob_colon, 'colon modes: all colons -> no change; no colons -> cautious = default + warning, required = fallback',
            functions=G, weight=6, timeout=3000, params={'cap': 2700}),
         Ob('sec_within', 'S', ob_sec_within, 'sec_within joins leading and trailing text in order, with a warning', functions=G, weight=2,
